@@ -49,3 +49,13 @@ m = {
 }
 json.dump(m, open(os.path.join(V, "MANIFEST.json"), "w"), indent=1)
 print("claimed:", sorted(PROPS))
+
+# validate against the interface schema when the tooling venv is there (never fatal for a check run)
+try:
+    import subprocess
+    r = subprocess.run(["python3-vt", "-c", "import json,jsonschema,sys;jsonschema.validate(json.load(open(sys.argv[1])),json.load(open('/root/.vp/MANIFEST.schema.json')))", os.path.join(V, "MANIFEST.json")], capture_output=True, text=True)
+    print("schema:", "ok" if r.returncode == 0 else "INVALID\n" + r.stderr[-800:])
+    if r.returncode != 0:
+        sys.exit(2)
+except FileNotFoundError:
+    pass
